@@ -258,11 +258,14 @@ impl crate::IoStream for VS2 {}
 #[test]
 fn verif_replay_token_range() {
     let mut bad: Vec<String> = Vec::new();
-    for id in [IDS].iter() {
-        let id = *id;
+    for (id, backlog) in [IDS].iter().flat_map(|i| vec![(*i, false), (*i, true)]) {
         let r = std::panic::catch_unwind(|| {
-            let mut io = IoLoop::new(crate::ConnectionTuning::default()).unwrap();
+            // backlog: more than the high-water mark is already queued when the wake-up is handled (an earlier event of the same batch
+            // put it there) - the wake-up is the only one this channel gets (edge-triggered), so its request must be taken all the same
+            let mut io = IoLoop::new(crate::ConnectionTuning::default().buffered_writes_high_water(if backlog { 16 } else { 16 << 20 })).unwrap();
             io.inner.outbuf.clear();
+            if backlog { for _ in 0..8 { io.inner.outbuf.push_heartbeat(); } }
+            let before = io.inner.outbuf.len();
             io.inner.chan_slots.set_channel_max(65535);
             let (ch0_slot, _h0) = Channel0Slot::new(4);
             let (slot, mut handle) = ChannelSlot::new(4, id);
@@ -270,11 +273,11 @@ fn verif_replay_token_range() {
             handle.call_nowait(amq_protocol::protocol::basic::AMQPMethod::Ack(amq_protocol::protocol::basic::Ack { delivery_tag: 1, multiple: false })).unwrap();
             let mut state = ConnectionState::Steady(ch0_slot);
             let r = io.handle_steady_event(&mut VS2, &mut state, mio::Event::new(mio::Ready::readable(), mio::Token(id as usize)));
-            let out = (r.is_ok(), io.inner.outbuf.len());
+            let out = (r.is_ok(), io.inner.outbuf.len() - before);
             std::mem::forget(handle); std::mem::forget(_h0);
             out
         });
-        match r { Ok((true, n)) if n > 0 => (), Ok((ok, n)) => bad.push(format!("id={}:ok={}:appended={}", id, ok, n)), Err(_) => bad.push(format!("id={}:PANIC", id)) }
+        match r { Ok((true, n)) if n > 0 => (), Ok((ok, n)) => bad.push(format!("id={}:backlog={}:ok={}:appended={}", id, backlog, ok, n)), Err(_) => bad.push(format!("id={}:backlog={}:PANIC", id, backlog)) }
     }
     if bad.is_empty() { println!("VERIF-REPLAY-OK"); } else { println!("VERIF-REPLAY-VIOLATION channel-token-not-dispatched {}", bad.join(";")); }
 }
